@@ -214,11 +214,8 @@ Proof.
 Qed.
 
 (* ---------------- 3. loading a problem erases the history ---------------- *)
-Definition row_ops (rows : list (list T)) (ys ws : list T) (a m : nat) : list (ls_op (T:=T)) :=
-  map (fun i => OpSetRow i (nth i rows []) (nth i ys (nzero N)) (nth i ws (nzero N))) (seq a m).
-
-Definition load_ops (n : nat) (rows : list (list T)) (ys ws : list T) : list (ls_op (T:=T)) :=
-  OpSetDataSize n :: row_ops rows ys ws 0 n.
+Local Notation row_ops := (row_ops N).
+Local Notation load_ops := (load_ops N).
 
 Lemma run_row_ops rows ys ws m : forall a s,
   ls_wf s -> (a + m <= length (ls_Y s))%nat ->
